@@ -174,7 +174,7 @@ theorem mantissaExponent_range (e : Int) (fd t : Nat) (hfd : fd < 2 ^ 29) (ht : 
 theorem parseTruncated_eq (single : Bool) (integer fraction : Bytes) (e : Int)
     (hdi : IsDigits integer) (hdf : IsDigits fraction) (hhead : ∀ d r, integer = d :: r → d ≠ 0x30)
     (hpos : 0 < natOfDigits (integer ++ fraction))
-    (he1 : -(2 ^ 31 : Int) < e) (he2 : e < 2 ^ 31) (hlen : integer.length + fraction.length < 2 ^ 29)
+    (hlen : integer.length + fraction.length < 2 ^ 29)
     (hz : (fc single).maxDigits - 1 < (sigDigits integer (trimTrailingZeros fraction)).length →
       0 < natOfDigits ((sigDigits integer (trimTrailingZeros fraction)).drop ((fc single).maxDigits - 1)))
     (hmod : ModerateOk (fc single) (fmtOf single)
@@ -234,5 +234,120 @@ theorem parseTruncated_eq (single : Bool) (integer fraction : Bytes) (e : Int)
         exact mantissaExponent_range e fr.length t (by omega) (by omega) hr1 hr2
       exact bhcomp_eq h integer fr hdi hdfr hhead hpos' e hebound.1 hebound.2
         (by simp only [List.length_append] at hlen'; omega) _ hb hz hnear
+
+/-! ## `de.rs`: infinity becomes `NumberOutOfRange`, the sign is applied afterwards -/
+
+theorem infBits_lt (F : Fmt) : F.infBits < 2 ^ (F.mbits + F.ebits) := by
+  unfold Fmt.infBits
+  rw [Nat.pow_add, Nat.mul_comm (2 ^ F.mbits)]
+  exact Nat.mul_lt_mul_of_pos_right (by have := pow_pos' F.ebits; omega) (pow_pos' _)
+
+/-- on values `≤ infBits` (what lexical returns), `is_infinite` holds for `infBits` only -/
+theorem isInf_iff {c : FC} {F : Fmt} (h : FCok c F) (b : Nat) (hb : b ≤ F.infBits) :
+    isInf c b = decide (b = F.infBits) := by
+  have hP := pow_pos' F.mbits
+  have hlt := infBits_lt F
+  unfold isInf isSpecial
+  rw [h.emask, h.mmask, Nat.and_two_pow_sub_one_eq_mod]
+  have hmask : b &&& F.infBits = b / 2 ^ F.mbits * 2 ^ F.mbits := and_expmask F b (by omega)
+  rw [hmask]
+  by_cases hbe : b = F.infBits
+  · subst hbe
+    have h1 : F.infBits / 2 ^ F.mbits * 2 ^ F.mbits = F.infBits := by
+      unfold Fmt.infBits; rw [Nat.mul_div_cancel _ hP]
+    have h2 : F.infBits % 2 ^ F.mbits = 0 := by unfold Fmt.infBits; exact Nat.mul_mod_left _ _
+    simp [h1, h2]
+  · have hblt : b < F.infBits := by omega
+    have hq : b / 2 ^ F.mbits < 2 ^ F.ebits - 1 := by
+      rw [Nat.div_lt_iff_lt_mul hP]; exact hblt
+    have : ¬ (b / 2 ^ F.mbits * 2 ^ F.mbits = F.infBits) := by
+      unfold Fmt.infBits
+      intro heq
+      have := Nat.eq_of_mul_eq_mul_right hP heq
+      omega
+    simp [this, hbe]
+
+theorem clampInf_le (F : Fmt) (r : Nat) : clampInf F r ≤ F.infBits := by unfold clampInf; split <;> omega
+
+theorem clampInf_eq_inf_iff (F : Fmt) (r : Nat) : clampInf F r = F.infBits ↔ F.infBits ≤ r := by
+  unfold clampInf; split <;> omega
+
+/-! ## the specification side: `Model.Num.exact` and `convertRoundtrip.conv` -/
+
+theorem exact_eq (p : Parts) : exact p =
+    if litN p == 0 then .zero
+    else if litE p + ((toString (litN p)).length : Int) > 400 then .huge
+    else if litE p + ((toString (litN p)).length : Int) < -400 then .tiny
+    else if litE p ≥ 0 then .rat (litN p * 10 ^ (litE p).toNat) 1
+    else .rat (litN p) (10 ^ (-(litE p)).toNat) := by
+  unfold exact litN litE litExp
+  rfl
+
+theorem digits_bounds (n : Nat) (hn : 0 < n) :
+    10 ^ ((toString n).length - 1) ≤ n ∧ n < 10 ^ (toString n).length := by
+  have e : toString n = n.repr := rfl
+  rw [e]
+  have hpos := @Nat.length_repr_pos n
+  constructor
+  · by_cases h1 : n.repr.length = 1
+    · rw [h1]; simp; omega
+    · have := (@Nat.length_repr_le_iff n (n.repr.length - 1) (by omega))
+      by_contra hc
+      have := this.2 (by omega)
+      omega
+  · exact (@Nat.length_repr_le_iff n n.repr.length hpos).1 (Nat.le_refl _)
+
+theorem roundMag_small (F : Fmt) (a b : Nat) (h : 2 * a < b) : roundMag F a b = 0 := by
+  have hab : a / b = 0 := Nat.div_eq_of_lt (by omega)
+  rw [roundMag_eq]
+  have hk : kOf F a b = 0 := by unfold kOf; rw [hab]; simp [Nat.log2]
+  rw [hk]
+  unfold rne
+  simp only [Nat.pow_zero, Nat.mul_one, hab, Nat.zero_mul, Nat.zero_add]
+  rw [Nat.mod_eq_of_lt (by omega), if_pos h]
+
+/-- digits and exponent say "at least 10^400": the rounded value is not finite -/
+theorem huge_overflows {c : FC} {F : Fmt} (h : FCok c F) (N L : Nat) (E : Int) (hN : 10 ^ (L - 1) ≤ N) (hL : 1 ≤ L)
+    (hE : E + (L : Int) > 400) : F.infBits ≤ roundMag F (dNum F N E) (dDen E) := by
+  apply roundMag_overflow_of_ge h _ _ (dDen_pos E)
+  unfold dNum dDen
+  have h400 := h.huge400
+  by_cases hE0 : 0 ≤ E
+  · have : (-E).toNat = 0 := by omega
+    rw [this, Nat.pow_zero, Nat.mul_one]
+    obtain ⟨j, hj⟩ : ∃ j, (L - 1) + E.toNat = 400 + j := ⟨(L - 1) + E.toNat - 400, by omega⟩
+    have h1 : 10 ^ 400 ≤ N * 10 ^ E.toNat := by
+      calc 10 ^ 400 ≤ 10 ^ 400 * 10 ^ j := Nat.le_mul_of_pos_right _ (Nat.pos_of_ne_zero (by simp))
+        _ = 10 ^ (L - 1) * 10 ^ E.toNat := by rw [← Nat.pow_add, ← Nat.pow_add, hj]
+        _ ≤ N * 10 ^ E.toNat := Nat.mul_le_mul_right _ hN
+    calc 2 ^ (F.mbits + 1) * 2 ^ (2 ^ F.ebits - 3) ≤ 10 ^ 400 * 2 ^ F.qexp := h400
+      _ ≤ N * 10 ^ E.toNat * 2 ^ F.qexp := Nat.mul_le_mul_right _ h1
+  · have hEt : E.toNat = 0 := by omega
+    rw [hEt, Nat.pow_zero, Nat.mul_one]
+    obtain ⟨j, hj⟩ : ∃ j, L - 1 = 400 + (-E).toNat + j := ⟨L - 1 - 400 - (-E).toNat, by omega⟩
+    have h1 : 10 ^ 400 * 10 ^ (-E).toNat ≤ N := by
+      calc 10 ^ 400 * 10 ^ (-E).toNat ≤ 10 ^ 400 * 10 ^ (-E).toNat * 10 ^ j :=
+            Nat.le_mul_of_pos_right _ (Nat.pos_of_ne_zero (by simp))
+        _ = 10 ^ (L - 1) := by rw [← Nat.pow_add, ← Nat.pow_add, hj]
+        _ ≤ N := hN
+    calc 2 ^ (F.mbits + 1) * 2 ^ (2 ^ F.ebits - 3) * 10 ^ (-E).toNat
+        ≤ 10 ^ 400 * 2 ^ F.qexp * 10 ^ (-E).toNat := Nat.mul_le_mul_right _ h400
+      _ = 10 ^ 400 * 10 ^ (-E).toNat * 2 ^ F.qexp := by ring
+      _ ≤ N * 2 ^ F.qexp := Nat.mul_le_mul_right _ h1
+
+/-- digits and exponent say "below 10^-400": the value rounds to zero -/
+theorem tiny_underflows {c : FC} {F : Fmt} (h : FCok c F) (N L : Nat) (E : Int) (hN : N < 10 ^ L)
+    (hE : E + (L : Int) < -400) : roundMag F (dNum F N E) (dDen E) = 0 := by
+  apply roundMag_small
+  unfold dNum dDen
+  have hEt : E.toNat = 0 := by omega
+  rw [hEt, Nat.pow_zero, Nat.mul_one]
+  obtain ⟨j, hj⟩ : ∃ j, (-E).toNat = 401 + L + j := ⟨(-E).toNat - 401 - L, by omega⟩
+  have ht := h.tiny400
+  calc 2 * (N * 2 ^ F.qexp) = N * (2 * 2 ^ F.qexp) := by ring
+    _ < 10 ^ L * (2 * 2 ^ F.qexp) := Nat.mul_lt_mul_of_pos_right hN (by have := pow_pos' F.qexp; omega)
+    _ ≤ 10 ^ L * 10 ^ 401 := Nat.mul_le_mul_left _ ht
+    _ ≤ 10 ^ L * 10 ^ 401 * 10 ^ j := Nat.le_mul_of_pos_right _ (Nat.pos_of_ne_zero (by simp))
+    _ = 10 ^ (-E).toNat := by rw [hj, Nat.pow_add, Nat.pow_add]; ring
 
 end SJ.Proofs.LexCorrect
